@@ -59,7 +59,8 @@ extern int mpt_connection_log(MPT_STRUCT(connection) *con, const char *from, int
 		return ret;
 	}
 	len = MPT_OUTPUT_LOGMSG_MAX - len;
-	if (from) {
+	/* zero length push would terminate the message */
+	if (flen) {
 		mpt_connection_push(con, flen, from);
 		len -= flen;
 	}
@@ -69,7 +70,9 @@ extern int mpt_connection_log(MPT_STRUCT(connection) *con, const char *from, int
 		--len;
 		
 		if (len > mlen) {
-			mpt_connection_push(con, mlen, msg);
+			if (mlen) {
+				mpt_connection_push(con, mlen, msg);
+			}
 			*hdr = 0x3; /* ETX */
 			mpt_connection_push(con, 1, hdr);
 		} else {
